@@ -291,7 +291,9 @@ def mon_c04_c06(h, obs, which):
             for i, (tx, rc) in enumerate(zip(b.txs, b.rcs)):
                 if tx.kind != "ibtp" or tx.id is None:
                     continue
-                if tx.group is not None:
+                if tx.group is not None and (tx.typ == "req" or tx.id not in ones):
+                    # a REQUEST carrying a Group declares a one-to-many child.  A receipt that carries one for an id begun
+                    # one-to-one is still that transaction's receipt (the field is the sender's to fill)
                     group_ids.add(tx.id)
                     continue
                 if tx.id in group_ids:
